@@ -194,8 +194,9 @@ def verify_rt(contract, cfg, both=False):
         # failed VCs without a natively reproduced counter-model: look for a concrete failing input with the
         # bounded native stand-in (all small inputs) and attach it as the replay
         failed = [d for d in res['verdicts'] if d['verdict'] == 'sat' and not (d.get('replay') or {}).get('reproduced')]
+        undecided = [d for d in res['verdicts'] if d['verdict'] not in ('sat', 'unsat')]
         b = getattr(contract, 'bounded', None)
-        if failed and b is not None:
+        if (failed or undecided) and b is not None:
             try:
                 bad, tried, bound = b(cx)
             except Exception as e2:
@@ -205,6 +206,11 @@ def verify_rt(contract, cfg, both=False):
                 for d in failed:
                     d['replay'] = {'reproduced': True, 'violated': bad[:3], 'bound': bound, 'tried': tried,
                                    'how': 'concrete failing input found by evaluating the contract natively on all small inputs'}
+                if not failed:
+                    # the solver left obligations undecided, but the bounded stand-in refutes the contract with a concrete input
+                    res['verdicts'].append({'obligation': 'bounded:contract-on-all-small-inputs', 'kind': 'post', 'verdict': 'sat',
+                                            'solver': 'native-enumeration', 'time_s': 0.0, 'path': None, 'model': None,
+                                            'replay': {'reproduced': True, 'violated': bad[:5], 'bound': bound, 'tried': tried}})
     except (OutOfSubset, _RoleError) as e:
         res['error'] = ('out-of-subset' if isinstance(e, OutOfSubset) else 'role', str(e))
         # the function left the verifier's subset: a BOUNDED stand-in (the contract evaluated natively on all small
